@@ -116,8 +116,8 @@ def case_histories(case):
         return core.ood("invalid-combination")
     try:
         S.reference(spec, 0)
-    except S.AlignAmbiguous:
-        return core.ood("ambiguous-alignment")
+    except S.OutOfDomain as e:
+        return core.ood(e.reason)
     key = core.digest(case["opts"])
     _FRESH.clear()
     events = list(range(N_VECTORS)) + [RAISE_EVENT]
@@ -315,8 +315,8 @@ def case_optimize_twice(case):
         return core.ood("invalid-combination")
     try:
         ref0 = S.reference(spec, 0)
-    except S.AlignAmbiguous:
-        return core.ood("ambiguous-alignment")
+    except S.OutOfDomain as e:
+        return core.ood(e.reason)
     n_free = sum(1 for _, _, vary in S.parameter_table(spec) if vary)
     if ref0["penalty"].size - n_free - ref0["number_of_clps"] <= 0:
         return core.ood("no-degrees-of-freedom")
